@@ -119,8 +119,15 @@ def _vm_history(t, out):
 
 def _vm_seek(t, out):
     content = _s(t[0])
-    n = int(t[1])
-    ops, i = [], 2
+    nm = int(t[1])
+    ms = [(t[2 + 2 * k], t[3 + 2 * k]) for k in range(nm)]
+    modes = "(fun _ => mkBm 0 false)"
+    if nm:
+        modes = "(fun i => nth (Nat.modulo i %d) [%s] (mkBm 0 false))" % (
+            nm, "; ".join("mkBm %s %s" % (c, "true" if e == "1" else "false") for c, e in ms))
+    i = 2 + 2 * nm
+    n = int(t[i]); i += 1
+    ops = []
     for _ in range(n):
         if t[i] == "r":
             ops.append("SRead %s" % t[i + 1]); i += 2
@@ -132,14 +139,15 @@ def _vm_seek(t, out):
     for p_ in out.split(" | "):
         rq, _, o = p_.partition(":")
         rqs = "(@nil (N * N))" if rq == "-" else "[" + "; ".join("(%s, %s)" % tuple(x.split("-")) for x in rq.split("+")) + "]"
-        if o.startswith("bytes:"):
-            ov = "SBytes %s" % _s(o[6:])
+        if o.startswith("data:"):
+            _, c, e = o.split(":")
+            ov = "SData %s %s" % (_s(c), "true" if e == "eof" else "false")
         elif o.startswith("pos:"):
             ov = "SPos %s" % o[4:]
         else:
             ov = {"err": "SErr", "closed": "SClosed"}[o]
         exp.append("(%s, %s)" % (rqs, ov))
-    return "rsc_run %s (rsc_open %s (len %s)) [%s] = [%s]" % (content, content, content, "; ".join(ops), "; ".join(exp))
+    return "rsc_run %s %s (rsc_open %s (len %s)) [%s] = [%s]" % (modes, content, content, content, "; ".join(ops), "; ".join(exp))
 
 
 def _vm_gram(t, out):
@@ -177,7 +185,7 @@ def _c13_vm_sample(d, tier, coq, build):
             i, _, o = l.rstrip("\n").partition(" ")
             outs[i] = o
     quota = {"H": 70, "S": 120, "A": 120, "U": 80}
-    maxlen = {"H": 5000, "S": 400, "A": 2000, "U": 2000}
+    maxlen = {"H": 5000, "S": 500, "A": 2000, "U": 2000}
     total, got, stride, goals = collections.Counter(), collections.Counter(), collections.Counter(), []
     with open(os.path.join(d, "cases.txt")) as f:
         for l in f:
